@@ -24,7 +24,7 @@ CLAIMED = {
               "as soon as d is non-empty; p-d = p+(-d). Proved through loop invariants for the three carry chains of _tick_over "
               "(Pos.iter loops with proven-sufficient bounds). Correspondence: seeded p x d in all modes, exact on the integer "
               "regime, 1 microsecond on the float regime; the oracle evaluates Spec instant/valid on the implementation's result."),
-        note="Python floats are modelled as exact rationals (ideal semantics); float rounding itself is not modelled.",
+        note="Props/C01Code.v: the bodies of TimePoint._tick_over, _tick_over_day_of_month, __add__/__sub__ with a Duration (and of the conversion, re-zoning, comparison and difference methods) are translated from /repo on every run (gen/GenCode4.v) and proved to return what the model functions return for every fuel at least the model's loop bounds, i.e. the Python loops terminate with the model's result; the C01 instant law is also stated of the translated __add__ itself. Python floats are modelled as exact rationals (ideal semantics); float rounding itself is not modelled.",
         technique="Coq proof by loop invariants over the carry chains + model/implementation correspondence + Spec oracle",
         design="7 C01"),
     "C02": dict(
@@ -32,14 +32,14 @@ CLAIMED = {
               "the model's three-way _cmp equals Qcompare of the Spec instants; hence the six operators are the order of instants, "
               "trichotomy/complementarity/unions, symmetry, transitivity; equal points have equal hash keys; sign of a-b agrees. "
               "Correspondence on pairs re-zoned and re-expressed by the implementation itself, all six operators + hash + a-b."),
-        note="Float regime (fractional hour/minute forms across different offsets) is known finding F3; only the integer regime is compared exactly.",
+        note="Props/C02Code.v: the bodies of TimePoint._cmp (five operators) and the tuple __hash__ hashes, translated from /repo on every run (gen/GenCode4.v), compute tp_cmp and tp_hash_key (zones within TimeZone's bounds). Float regime (fractional hour/minute forms across different offsets) is known finding F3; only the integer regime is compared exactly.",
         technique="Coq proof (comparison = order of Spec instants) + pairwise model/implementation correspondence",
         design="7 C02"),
     "C04": dict(
         text=("Theorems (Props/C04.v): a-b is DU 0 0 dd h m s with len = instant a - instant b, normalised with one sign, h and m whole; "
               "(a-b) == -(b-a); b+(a-b) compares equal to a in b's representation/offset; (p+d)-p == d for exact d. "
               "Correspondence on pairs at distances 0..1e6 days across year 0 and all spellings."),
-        note="Float regime falls under known finding F3 (a-b can recurse forever when float rounding makes a>b and b>a both true).",
+        note="Props/C04Code.v: the body of TimePoint.__sub__ for two points, translated from /repo on every run (gen/GenCode4.v), computes tp_sub. Float regime falls under known finding F3 (a-b can recurse forever when float rounding makes a>b and b>a both true).",
         technique="Coq proof + pairwise model/implementation correspondence + Spec oracle",
         design="7 C04"),
     "C05": dict(
@@ -47,7 +47,7 @@ CLAIMED = {
               "n+k months = n then k, any representation via calendar form and back with time/offset/shape preserved and result "
               "normal; year shifts = min(day, target month/year/week-year length) per representation and stay valid; mixed durations "
               "apply exact part, then months, then years; any sum of a valid point is valid."),
-        note="Syntactic equality of the time of day holds up to the reduced form of the same rational (tod_eqv).",
+        note="Props/C05Code.v: the body of TimePoint.add_months, translated from /repo on every run (gen/GenCode4.v), computes the model's add_months (the year clamps are part of the translated __add__, Props/C01Code.v). Syntactic equality of the time of day holds up to the reduced form of the same rational (tod_eqv).",
         technique="Coq proof of refinement to an iterate-and-clamp spec + correspondence + Spec oracle",
         design="7 C05"),
     "C06": dict(
@@ -55,7 +55,7 @@ CLAIMED = {
               "exactly the requested offset, keeps representation and precision form, is valid; it compares Eq both ways, has an "
               "equivalent hash key and an empty difference. Correspondence incl. to_local_time_zone with a faked system zone; "
               "thorough tier sweeps all 11 999 destination offsets."),
-        note="The dump-with-literal-zone clause is covered with the dumper model under C08 when claimed; float regime hashes are known finding F3.",
+        note="Props/C06Code.v: the bodies of TimePoint.to_time_zone and to_utc, translated from /repo on every run (gen/GenCode4.v), compute the model functions. The dump-with-literal-zone clause is covered with the dumper model under C08 when claimed; float regime hashes are known finding F3.",
         technique="Coq proof (corollary of C01/C02/C04) + correspondence + Spec oracle",
         design="7 C06"),
     "C07": dict(
